@@ -625,6 +625,17 @@ Proof.
       split; [eapply Inv_qk; eassumption|eapply hor_qk; eassumption].
 Qed.
 
+Lemma A_start_instance s u self parent s' o p : Inv s -> regu u s -> start_instance roles s u self parent = (s', o, p) -> Inv s' /\ regu u s'.
+Proof.
+  intros HI Hu. unfold start_instance. destruct (handle roles s u TRD 0%nat self) as [[s1 o1] p1] eqn:E1.
+  destruct (A_handle _ _ _ _ _ _ _ _ HI Hu E1) as [I1 R1].
+  destruct (handle roles s1 u TL 0%nat parent) as [[s2 o2] p2] eqn:E2.
+  destruct (A_handle _ _ _ _ _ _ _ _ I1 R1 E2) as [I2 R2]. intros H; inversion H; subst.
+  destruct p2; [auto|].
+  assert (Q : qk s2 (upd_actor s2 u (w_accidents 0%nat))) by (apply qk_upd_actor; [qp|apply hor_of_regu; exact R2]).
+  split; [eapply Inv_qk; eassumption|eapply regu_qk; eassumption].
+Qed.
+
 Lemma A_try_restarted s u snd s' o p : Inv s -> regu u s -> try_restarted roles s u snd = (s', o, p) -> Inv s' /\ hor u s'.
 Proof.
   intros HI Hu. unfold try_restarted. destruct (get s u) as [a|] eqn:Ea; [|intros H; inversion H; subst; split; [exact HI|apply hor_of_regu; exact Hu]].
@@ -637,7 +648,9 @@ Proof.
   destruct (handle roles s1 u TTS 0%nat snd) as [[s2 o2] p2] eqn:E2.
   destruct (A_handle _ _ _ _ _ _ _ _ I1 R1 E2) as [I2 R2]. pose proof (keep_handle _ _ _ _ _ _ _ _ _ E2) as K2.
   unfold bind. destruct p2; [intros H; inversion H; subst; auto|].
-  destruct (provide s2 (a_tok a)) as [s3 inst] eqn:Ep. intros H; inversion H; subst.
+  destruct (provide s2 (a_tok a)) as [s3 inst] eqn:Ep.
+  match goal with |- context [start_instance ?r ?x ?y ?z ?w0] => destruct (start_instance r x y z w0) as [[s9 o9] p9] eqn:E9 end.
+  intros H; inversion H; subst.
   assert (Q3 : qk s2 s3) by (unfold provide in Ep; inversion Ep; subst; apply qk_same; reflexivity).
   destruct (K1 u a Ea) as (a1 & G1 & S1 & _). destruct (K2 u a1 G1) as (a2 & G2 & S2 & _).
   assert (G3 : get s3 u = Some a2) by (unfold provide in Ep; inversion Ep; subst; exact G2).
@@ -651,11 +664,8 @@ Proof.
   assert (Q5 : qk s4 (deliver_sys s4 (a_tok a) (a_tok a) SResume)) by (apply qk_deliver_sys; apply I4).
   set (s5 := deliver_sys s4 (a_tok a) (a_tok a) SResume) in *.
   assert (I5 : Inv s5) by (eapply Inv_qk; eassumption).
-  assert (Q6 : qk s5 (deliver_sys s5 (a_tok a) (a_tok a) SRestarted)) by (apply qk_deliver_sys; apply I5).
-  set (s6 := deliver_sys s5 (a_tok a) (a_tok a) SRestarted) in *.
-  assert (I6 : Inv s6) by (eapply Inv_qk; eassumption).
-  assert (Q7 : qk s6 (deliver_sys s6 (a_tok a) (a_parent a) SLaunch)) by (apply qk_deliver_sys; apply I6).
-  split; [eapply Inv_qk; eassumption|]. eapply regu_qk; [exact Q7|]. eapply regu_qk; [exact Q6|]. eapply regu_qk; [exact Q5|exact R4].
+  assert (R5 : regu u s5) by (eapply regu_qk; [exact Q5|exact R4]).
+  eapply A_start_instance; [exact I5|exact R5|exact E9].
 Qed.
 
 Lemma A_apply_directive s u r d snd s' o p : Inv s -> regu u s -> apply_directive roles s u r d snd = (s', o, p) -> Inv s' /\ hor u s'.
